@@ -6,6 +6,7 @@ import (
 	"os"
 	"path/filepath"
 	"regexp"
+	goruntime "runtime"
 	"runtime/debug"
 	"strings"
 	"sync/atomic"
@@ -21,23 +22,40 @@ import (
 //
 // fuel = number of vshim.Tick() calls (one per function entry and per loop iteration of every
 // instrumented origami package) spent between the start of tokenizing and the parser's return.
-// The oracle is  fuel <= cQuad*(n+1)^2  for an input of n bytes, additionally capped by a linear
-// envelope so that the verdict on a 20 kB corpus file does not need 10^10 ticks:
 //
-//	budget(n) = min(cQuad*(n+1)^2, linBase + linPer*(n+1))
+//	oracle:      fuel <= bound(n) = cQuad*(n+1)^2          for an input of n bytes
 //
-// cQuad/linPer were calibrated on the unmutated corpus and on every accepted/rejected token
-// string of family (b): measured maxima are reported in the evidence (max_fuel_per_sq,
-// max_fuel_per_byte) and must stay below cQuad/4 resp. linPer/4 or the check fails itself.
+// cQuad was calibrated on the corpus and on every token string of family (b): the measured
+// maximum of fuel/(n+1)^2 (reported as max_fuel_per_sq; it is reached by 1-byte inputs) must
+// stay below cQuad/4 or the check fails itself.
+//
+// Spending cQuad*(n+1)^2 ticks on a 20 kB input is not affordable, so the verdict is reached in
+// steps: (1) a cheap first pass with budget(n) = min(bound, linBase+linPer*(n+1)); almost every
+// input finishes inside it. (2) If it does not, the input is delta-reduced (cheap probe budget)
+// to a small text, and that text is run against its *own full* bound: exceeding it is the
+// reported violation (a real input, minimal, with the loop's function as key). (3) If no small
+// violating text is found the original is re-run with min(bound, hardCap); finishing = conforms
+// (counted as "superlinear"), exhausting the true bound = violation, exhausting only the cap =
+// "undecided" (counted, never an alarm).
 const (
 	cQuad   = 400
 	linBase = 100_000
 	linPer  = 1_000
+	hardCap = 400_000_000
 	runFuel = 400_000 // extra fuel for running an accepted program (family e)
 )
 
+func bound(n int) int64 { return int64(cQuad) * int64(n+1) * int64(n+1) }
+
+func cappedBound(n int) int64 {
+	if b := bound(n); b < hardCap {
+		return b
+	}
+	return hardCap
+}
+
 func budget(n int) int64 {
-	q := int64(cQuad) * int64(n+1) * int64(n+1)
+	q := bound(n)
 	l := int64(linBase) + int64(linPer)*int64(n+1)
 	if q < l {
 		return q
@@ -102,9 +120,33 @@ func check(src string, mode int, run bool) verdict {
 		v.Detail = res.PanicMsg
 		return v
 	case "fuel":
-		v.Clause = "terminates-within-bound"
-		v.Key, v.Detail = attributeHang(src, mode)
-		v.Outcome = "fuel"
+		key, detail, r3 := decideHang(src, mode)
+		switch {
+		case key != "":
+			v.Clause = "terminates-within-bound"
+			v.Key, v.Detail = key, detail
+			v.Outcome = "fuel"
+			return v
+		case r3 == nil:
+			v.Outcome = "undecided-over-cap"
+			v.Detail = detail
+			return v
+		}
+		// finished inside the true bound after all: judge the result like any other
+		res = *r3
+		v.Fuel = 0
+		switch res.Kind {
+		case "panic":
+			v.Outcome = "panic"
+			v.Clause = "no-crash"
+			v.Key = res.PanicKey
+			v.Detail = res.PanicMsg
+			return v
+		case "ok", "parse":
+			v.Outcome = res.Kind + "-superlinear"
+			return v
+		}
+		v.Outcome = "unexpected:" + res.Kind
 		return v
 	case "exit":
 		v.Clause = "no-crash"
@@ -217,7 +259,7 @@ func fuelStack(src string, mode int, fuel int64) (frames []string, exhausted boo
 		if r != nil {
 			if _, ok := r.(vshim.FuelExhausted); ok {
 				exhausted = true
-				frames = originFrames(string(debug.Stack()))
+				frames = callerFrames()
 			}
 		}
 	}()
@@ -238,28 +280,28 @@ func fuelStack(src string, mode int, fuel int64) (frames []string, exhausted boo
 	return
 }
 
-func originFrames(stack string) []string {
+// callerFrames returns the origami frames of the panicking stack, outermost first. It walks the
+// PCs itself (runtime.Callers) because debug.Stack() elides the middle of stacks deeper than 100
+// frames, which would make the attribution depend on how deep the harness itself happens to be.
+func callerFrames() []string {
+	pcs := make([]uintptr, 1<<16)
+	n := goruntime.Callers(2, pcs)
+	it := goruntime.CallersFrames(pcs[:n])
 	var inner []string
-	seenPanic := false
-	for _, l := range strings.Split(stack, "\n") {
-		if strings.HasPrefix(l, "panic(") {
-			seenPanic = true
-			inner = inner[:0]
-			continue
+	for {
+		f, more := it.Next()
+		fn := f.Function
+		if fn == "runtime.gopanic" {
+			inner = inner[:0] // keep what lies below the outermost panic only
+		} else if strings.HasPrefix(fn, modPrefix) && !strings.HasPrefix(fn, modPrefix+"utils/vshim.") {
+			fn = strings.TrimPrefix(fn, modPrefix)
+			fn = reClosure.ReplaceAllString(fn, "")
+			inner = append(inner, fn)
 		}
-		if !seenPanic || strings.HasPrefix(l, "\t") {
-			continue
-		}
-		if strings.HasPrefix(l, modPrefix) && !strings.HasPrefix(l, modPrefix+"utils/vshim.") {
-			f := strings.TrimPrefix(l, modPrefix)
-			if i := strings.LastIndex(f, "("); i > 0 {
-				f = f[:i]
-			}
-			f = reClosure.ReplaceAllString(f, "")
-			inner = append(inner, f)
+		if !more {
+			break
 		}
 	}
-	// reverse: outermost first
 	for i, j := 0, len(inner)-1; i < j; i, j = i+1, j-1 {
 		inner[i], inner[j] = inner[j], inner[i]
 	}
@@ -321,26 +363,48 @@ func parseOnly(src string, mode int, fuel int64) (res runner.Result) {
 	return
 }
 
-// attributeHang shrinks a budget-exhausting input (token deletion, windows first) and names
-// the function that owns the non-terminating loop: the stack is sampled at every tick of one
-// full period of the loop (or 400 consecutive ticks) and the innermost frame common to all
-// samples is the function that never returns. With 16x the budget the reduced input still
-// does not finish => "hang"; if it does => "slow" (super-bound but terminating).
-func attributeHang(src string, mode int) (key, detail string) {
-	// reduction uses a cheaper probe budget; the result is re-validated against the real one
-	red := reduceText(src, mode, func(s string) bool { return parseOnly(s, mode, probe(len(s))).Kind == "fuel" })
+// decideHang is called when the first-pass budget ran out. It returns a finding key (violation),
+// or a completed result (the input finished inside its true bound), or neither (undecided).
+//
+// The input is shrunk by token deletion under a cheap probe budget; if the small result exceeds
+// its own full bound, that is the violation and the function owning the non-terminating loop is
+// named: the stack is sampled at consecutive ticks and the innermost frame common to all samples
+// is the function that never returns.
+func decideHang(src string, mode int) (key, detail string, done *runner.Result) {
+	probeBad := func(s string) bool { return parseOnly(s, mode, probe(len(s))).Kind == "fuel" }
+	red := canonText(reduceText(src, mode, probeBad), probeBad)
 	if k, ok := hangCache[red]; ok {
-		return k[0], k[1]
+		if k[0] != "" {
+			return k[0], k[1], nil
+		}
+	} else if len(red) <= 2000 {
+		b := cappedBound(len(red))
+		if parseOnly(red, mode, b).Kind == "fuel" && b == bound(len(red)) {
+			key, detail = attribute(red, mode, b)
+			hangCache[red] = [2]string{key, detail}
+			return key, detail, nil
+		}
+		hangCache[red] = [2]string{"", ""}
 	}
-	if red != src && !exhausts(red, mode) {
-		red = src
+	// no small violating text: decide the original itself
+	b := cappedBound(len(src))
+	r := parseOnly(src, mode, b)
+	if r.Kind != "fuel" {
+		return "", "", &r
 	}
-	b := budget(len(red))
-	// sampling starts well past the finite part of the work on the reduced input
+	if b == bound(len(src)) {
+		key, detail = attribute(src, mode, b)
+		return key, detail, nil
+	}
+	return "", fmt.Sprintf("%d-byte input needs more than %d ticks (bound %d not affordable)", len(src), b, bound(len(src))), nil
+}
+
+func attribute(red string, mode int, b int64) (key, detail string) {
 	start := probe(len(red))
 	var common []string
 	samples := 0
-	for k := int64(0); k < hangSamples; k++ {
+	lastChange := int64(0)
+	for k := int64(0); k < hangSamples && k-lastChange < hangStable; k++ {
 		fr, ex := fuelStack(red, mode, start+k)
 		if !ex {
 			break
@@ -348,29 +412,33 @@ func attributeHang(src string, mode int) (key, detail string) {
 		samples++
 		if k == 0 {
 			common = fr
-		} else {
-			common = commonPrefix(common, fr)
+		} else if c := commonPrefix(common, fr); len(c) != len(common) {
+			common = c
+			lastChange = k
 		}
 	}
 	frame := "?"
 	if len(common) > 0 {
 		frame = common[len(common)-1]
 	}
-	class := "hang"
-	big := b * 16
-	if big > 400_000_000 {
-		big = 400_000_000
-	}
-	if _, ex := fuelStack(red, mode, big); !ex {
-		class = "slow"
-	}
-	key = class + "@" + frame
-	detail = fmt.Sprintf("budget(%d bytes)=%d ticks exhausted; %s confirmed with %d ticks; innermost frame common to %d consecutive-tick stack samples; reduced input %q", len(red), b, class, big, samples, red)
-	hangCache[red] = [2]string{key, detail}
+	key = "hang@" + frame
+	detail = fmt.Sprintf("input of %d bytes does not finish within bound %d*(n+1)^2 = %d ticks; looping function = innermost frame common to %d consecutive-tick stack samples; input %q", len(red), cQuad, b, samples, clip400(red))
 	return
 }
 
-const hangSamples = 240
+func clip400(s string) string {
+	if len(s) > 400 {
+		return s[:300] + fmt.Sprintf(" …(%d bytes)", len(s))
+	}
+	return s
+}
+
+// stack samples at consecutive ticks: at most hangSamples, stopping once the common prefix has
+// not shrunk for hangStable consecutive ticks
+const hangSamples = 400
+const hangStable = 150
+
+var hangCache = map[string][2]string{}
 
 func probe(n int) int64 {
 	p := int64(300*(n+1) + 5000)
@@ -380,7 +448,43 @@ func probe(n int) int64 {
 	return p
 }
 
-var hangCache = map[string][2]string{}
+// canonText makes reduced inputs comparable: whitespace collapsed, then string literals,
+// variables and numbers replaced by one representative each - every step only if the predicate
+// still holds on the result.
+func canonText(red string, bad func(string) bool) string {
+	if c := strings.Join(strings.Fields(red), " "); c != red && bad(c) {
+		red = c
+	}
+	for class := 0; class < 3; class++ {
+		toks, _ := crudeTokens(red)
+		var sb strings.Builder
+		pos := 0
+		changed := false
+		for _, t := range toks {
+			txt := red[t.s:t.e]
+			rep := txt
+			switch {
+			case class == 0 && len(txt) >= 2 && (txt[0] == '"' || txt[0] == '\'') && txt[len(txt)-1] == txt[0]:
+				rep = `"s"`
+			case class == 1 && len(txt) >= 2 && txt[0] == '$' && txt != "$this":
+				rep = "$a"
+			case class == 2 && isDigit(txt[0]):
+				rep = "1"
+			}
+			if rep != txt {
+				changed = true
+			}
+			sb.WriteString(red[pos:t.s])
+			sb.WriteString(rep)
+			pos = t.e
+		}
+		sb.WriteString(red[pos:])
+		if c := sb.String(); changed && bad(c) {
+			red = c
+		}
+	}
+	return red
+}
 
 func commonPrefix(a, b []string) []string {
 	n := 0
@@ -446,7 +550,24 @@ func reduceText(src string, mode int, bad func(string) bool) string {
 		}
 		if chunk == 1 {
 			if !removed {
-				break
+				// 1-minimal for single tokens: now try to drop whole leading runs (enclosing
+				// statements that single-token deletion cannot remove), smallest suffix first
+				toks, _ = crudeTokens(cur)
+				dropped := false
+				if len(toks) <= 80 {
+					for i := len(toks) - 1; i > keep && tests < maxTests; i-- {
+						cand := cur[:toks[keep].s] + cur[toks[i].s:]
+						tests++
+						if bad(cand) {
+							cur = cand
+							dropped = true
+							break
+						}
+					}
+				}
+				if !dropped {
+					break
+				}
 			}
 			continue
 		}
